@@ -33,9 +33,10 @@ ASSUMPTIONS = [
     'round), never on RSS or elapsed time',
 ]
 FLOORS = {'schedules': 200, 'evaluate_outcomes': 2000, 'snapshots': 50,
-          'growth_windows': 20, 'dependent_order_pairs': 50,
+          'growth_windows': 24, 'dependent_order_pairs': 50,
           'derived_models': 20, 'own_namespace_evaluators': 20,
-          'evaluations_after_reassignment': 500, 'long_chain_outcomes': 48}
+          'evaluations_after_reassignment': 500, 'long_chain_outcomes': 48,
+          'failing_evaluations_before_reassignment': 30}
 ANCHOR_FUNCS = {
     'xlcalculator/evaluator.py': ['Evaluator.evaluate',
                                   'EvaluatorContext.eval_cell'],
@@ -89,6 +90,13 @@ def leak_run(ctx, model, addrs, rounds, label):
         return sum(1 for o in gc.get_objects() if type(o) is ctx_cls)
 
     def one_round():
+        if label.startswith('many-evaluators'):
+            # a new Evaluator for every round, dropped afterwards (an
+            # application serving one request per Evaluator)
+            e2 = Evaluator(model)
+            for a in addrs:
+                e2.evaluate(a)
+            return
         for a in addrs:
             ev.evaluate(a)
     # warm up (first evaluations create caches of bounded size, e.g. inspect)
@@ -202,6 +210,14 @@ def run(ctx):
                             m.inputs.append((sh_, cc, 1))
                             m.deps[(sh_, cc, 1)] = set()
                             m.depth[(sh_, cc, 1)] = 0
+        # a cell that FAILS after it has evaluated formula cells (not part of
+        # the schedules; asked once, and caught, before inputs are re-assigned)
+        fail_key = (home, 12, 1)
+        fast = gen.lit(1)
+        for fk in rng.sample(m.formulas, min(len(m.formulas), 6)):
+            fast = ('bin', '+', fast, gen.R(fk, home))
+        m.cells[fail_key] = ('f', ('bin', '+', fast, ('call', 'NOSUCHFUNCTION',
+                                                     [gen.lit(1)])))
         wb = m.workbook()
         try:
             want = {k: ref.to_norm(wb.value(k)) for k in m.order}
@@ -321,6 +337,12 @@ def run(ctx):
                             'model, address text', 'model, XLCell'])
         wb2 = m.workbook()
         changed = rng.sample(m.inputs, min(len(m.inputs), rng.randint(1, 3)))
+        if rng.random() < 0.6:
+            got_f = subject.outcome_of(
+                lambda: rng.choice(evs).evaluate(build.addr(fail_key)))
+            ctx.event('failing_evaluations_before_reassignment')
+            if got_f[0] != 'raised':
+                ctx.note(f'the failing cell returned {got_f}')
         try:
             for k in changed:
                 v = rng.choice([11, 12, 13, 0.25, -3])
@@ -462,6 +484,10 @@ def run(ctx):
                         'C3': '=COUNTIF(A1:A3,">1")'}),
             ('dates', {'A1': 43831, 'B1': '=YEAR(A1)', 'B2': '=EDATE(A1,1)',
                        'B3': '=DATE(2020,1,31)-A1'}),
+            ('many-evaluators', {'A1': 2, 'B1': '=A1+1', 'B2': '=SUM(A1:B1)',
+                                 'C1': '=IF(B2>3,B1,A1)'}),
+            ('many-evaluators-names', {'A1': 2, 'B1': '=A1*3',
+                                       'C1': '=MAX(A1,B1)&"x"'}),
         ]
         if ctx.shard < len(shapes):
             label, cells = shapes[ctx.shard]
